@@ -72,6 +72,11 @@ def rand_archive(rng, big=False):
         entries.append((n, d, rng.choice([0, 1, 0x7fffffff, 0xffffffff])))
     if entries and rng.random() < 0.15:
         entries.append((entries[0][0], b"dup", 0))   # duplicate name: first wins
+    if entries and rng.random() < 0.3:
+        # names that differ only in letter case are different entries; each keeps its own bytes
+        n0 = rng.choice(entries)[0]
+        for v in {n0.swapcase(), n0.upper(), n0.lower()} - {n for n, d, t in entries}:
+            entries.insert(rng.randint(0, len(entries)), (v, b"case:" + v + bytes(rng.randint(0, 255) for _ in range(rng.choice([0, 3, 40]))), 0))
     return props, entries
 
 
@@ -243,7 +248,7 @@ def main(replay=None):
     run.cov["evaluations"] = len(cases)
     run.cov["distinct_nontrivial"] = len([d for d in distinct if d[2]])
     run.cov["rule"] = ("archives from an independent Python packer (random props/entries, names with backslashes, empty and binary "
-                       "content, duplicate names), every truncation point, single-byte and u32-field corruptions of small archives, "
+                       "content, duplicate names, names that differ only in letter case), every truncation point, single-byte and u32-field corruptions of small archives, "
                        "random bytes, an absent path; a case is non-trivial when the model accepts the archive (open = Some); "
                        "distinct by (file bytes, name)")
     run.cov["input_distribution"] = kinds
